@@ -1,7 +1,14 @@
-(* C17 -- property theorems only: each is closed by [exact] of a lemma proved elsewhere. *)
+(* C17 -- property theorems only: each is closed by [exact] of a lemma proved elsewhere.
+   M, TH, PG, OV are the constants translated from /repo (Gen/Consts.v); [jk] is the value of indeterminate bytes. *)
 From Coq Require Import List NArith ZArith.
-From Muscle Require Import Gen.Consts Cont.StrL0 Cont.StrModel Cont.StrProofs.
+From Muscle Require Import Gen.Consts Cont.StrL0 Cont.StrModel Cont.StrLemmas Cont.StrCore Cont.StrOps Cont.StrRefine Cont.StrProofs.
+Import ListNotations.
 Local Open Scope N_scope.
+
+Local Notation M := c_STRING_MAX_SHORT_LENGTH.
+Local Notation TH := c_string_small_growth_threshold.
+Local Notation PG := c_string_page_size.
+Local Notation OV := c_string_malloc_overhead.
 
 Theorem C17_consts_ok :
   c_STRING_SIZEOF = c_STRING_MAX_SHORT_LENGTH + 1 /\ 1 <= c_STRING_MAX_SHORT_LENGTH < 128 /\
@@ -10,3 +17,94 @@ Theorem C17_consts_ok :
   c_string_malloc_overhead < c_string_page_size.
 Proof. exact consts_ok. Qed.
 Print Assumptions C17_consts_ok.
+
+(* every operation, from every storage state, with every (possibly aliasing) operand: invariant kept, result and
+   value equal to those of the ideal byte string *)
+Theorem C17_step_refines : forall jk s o,
+  inv M s -> nulfree (abs M s) -> op_ok (abs M s) o ->
+  inv M (fst (step1 M TH PG OV jk true s o)) /\
+  abs M (fst (step1 M TH PG OV jk true s o)) = fst (step0 (abs M s) o) /\
+  abs_out M (snd (step1 M TH PG OV jk true s o)) = snd (step0 (abs M s) o) /\
+  out_inv M (snd (step1 M TH PG OV jk true s o)).
+Proof. exact c17_step_refines. Qed.
+Print Assumptions C17_step_refines.
+
+(* ... lifted to every operation list *)
+Theorem C17_exec_refines : forall jk ops s,
+  inv M s -> nulfree (abs M s) -> run_ok (abs M s) ops ->
+  inv M (fst (exec1 M TH PG OV jk true s ops)) /\ nulfree (abs M (fst (exec1 M TH PG OV jk true s ops))) /\
+  abs M (fst (exec1 M TH PG OV jk true s ops)) = fst (exec0 (abs M s) ops) /\
+  map (abs_out M) (snd (exec1 M TH PG OV jk true s ops)) = snd (exec0 (abs M s) ops) /\
+  Forall (out_inv M) (snd (exec1 M TH PG OV jk true s ops)).
+Proof. exact c17_exec_refines. Qed.
+Print Assumptions C17_exec_refines.
+
+Theorem C17_from_empty : forall jk ops,
+  run_ok [] ops ->
+  let r := exec1 M TH PG OV jk true (empty1 M jk) ops in
+  inv M (fst r) /\ abs M (fst r) = fst (exec0 [] ops) /\ map (abs_out M) (snd r) = snd (exec0 [] ops).
+Proof. exact c17_from_empty. Qed.
+Print Assumptions C17_from_empty.
+
+(* small buffer or heap, any capacity: same bytes => same behaviour *)
+Theorem C17_storage_irrelevant : forall jk ops s1 s2,
+  inv M s1 -> inv M s2 -> nulfree (abs M s1) -> abs M s1 = abs M s2 -> run_ok (abs M s1) ops ->
+  abs M (fst (exec1 M TH PG OV jk true s1 ops)) = abs M (fst (exec1 M TH PG OV jk true s2 ops)) /\
+  map (abs_out M) (snd (exec1 M TH PG OV jk true s1 ops)) = map (abs_out M) (snd (exec1 M TH PG OV jk true s2 ops)).
+Proof. exact c17_storage_irrelevant. Qed.
+Print Assumptions C17_storage_irrelevant.
+
+(* an operand that aliases the String (the String itself, or a pointer into its buffer) behaves as a separate copy *)
+Theorem C17_alias_eq : forall jk s o,
+  inv M s -> nulfree (abs M s) -> op_ok (abs M s) o ->
+  abs M (fst (step1 M TH PG OV jk true s o)) = abs M (fst (step1 M TH PG OV jk true s (dealias (abs M s) o))) /\
+  abs_out M (snd (step1 M TH PG OV jk true s o)) = abs_out M (snd (step1 M TH PG OV jk true s (dealias (abs M s) o))).
+Proof. exact c17_alias_eq. Qed.
+Print Assumptions C17_alias_eq.
+
+(* Flatten = bytes + NUL; Unflatten of that gives an equal String; unterminated input is rejected *)
+Theorem C17_flatten_roundtrip : forall jk s t,
+  inv M s -> nulfree (abs M s) -> slen M s + 1 < LIM -> inv M t ->
+  flatten1 M s = abs M s ++ [0] /\
+  exists t', unflatten1 M TH PG OV jk true t (flatten1 M s) = (StOk, t') /\ inv M t' /\ abs M t' = abs M s.
+Proof. exact c17_flatten_roundtrip. Qed.
+Print Assumptions C17_flatten_roundtrip.
+Theorem C17_unflatten_rejects_unterminated : forall jk t bytes,
+  inv M t -> lenN bytes < LIM -> nulfree bytes -> unflatten1 M TH PG OV jk true t bytes = (StErr, t).
+Proof. exact c17_unflatten_rejects. Qed.
+Print Assumptions C17_unflatten_rejects_unterminated.
+
+(* no size premise: Prealloc / ShrinkToFit keep the value for every argument (F27, F31 repaired) *)
+Theorem C17_prealloc_value_safe : forall jk s n,
+  inv M s -> inv M (snd (prealloc M TH PG OV jk true s n)) /\ abs M (snd (prealloc M TH PG OV jk true s n)) = abs M s.
+Proof. exact c17_prealloc_value_safe. Qed.
+Print Assumptions C17_prealloc_value_safe.
+Theorem C17_shrink_value_safe : forall jk s extra,
+  inv M s -> inv M (snd (shrink_to_fit M TH PG OV jk true s extra)) /\ abs M (snd (shrink_to_fit M TH PG OV jk true s extra)) = abs M s.
+Proof. exact c17_shrink_value_safe. Qed.
+Print Assumptions C17_shrink_value_safe.
+
+(* the pinned tree violated the statement (findings F27, F28, F31); witnesses replayed on the real code *)
+Theorem C17_pinned_prealloc_refuted :
+  exists s n, abs pM s = [97; 98; 99] /\
+              fst (prealloc pM pTH pPG pOV 170 false s n) = StOk /\ abs pM (snd (prealloc pM pTH pPG pOV 170 false s n)) = [].
+Proof. exact pinned_prealloc_refuted. Qed.
+Print Assumptions C17_pinned_prealloc_refuted.
+Theorem C17_pinned_unflatten_refuted :
+  exists s bytes, nulfree bytes /\ fst (unflatten1 pM pTH pPG pOV 170 false s bytes) = StOk.
+Proof. exact pinned_unflatten_refuted. Qed.
+Print Assumptions C17_pinned_unflatten_refuted.
+Theorem C17_pinned_shrink_refuted :
+  exists s extra, let s' := snd (shrink_to_fit pM pTH pPG pOV 170 false s extra) in
+                  abs pM s = [97; 98; 99] /\ abs pM s' = [97; 98].
+Proof. exact pinned_shrink_refuted. Qed.
+Print Assumptions C17_pinned_shrink_refuted.
+
+(* non-vacuity: the domain holds a boundary-crossing, aliasing script and two storage modes of one value *)
+Example C17_domain_inhabited : run_ok [] ex_ops.
+Proof. exact ex_run_ok. Qed.
+Example C17_two_modes :
+  let s1 := abc1 true 0 in let s2 := abc1 true 40 in
+  inv pM s1 /\ inv pM s2 /\ is_long s1 = false /\ is_long s2 = true /\ abs pM s1 = abs pM s2 /\ nulfree (abs pM s1) /\
+  op_ok (abs pM s1) (OAppendC (CSelf 1)) /\ slen pM s1 + 1 < LIM.
+Proof. exact ex_two_modes. Qed.
